@@ -7,6 +7,8 @@
 import Scale.Encode
 import Scale.Decode
 import Scale.Entry
+import Scale.Mel
+import Scale.Append
 namespace Scale.Driver
 open Scale
 
@@ -375,6 +377,18 @@ def answer (line : String) : String :=
       | .err => "err"
       | .panic => "panic"
     | none => "bad-op"
+  | ["appendn", hv, m, hp] =>
+    match parseHex hv, m.toNat?, parseHex hp with
+    | some v, some m, some p => showResBytes (Impl.appendOrNewN v m p)
+    | _, _, _ => "bad-op"
+  | "mel" :: rest =>
+    match parseTy rest with
+    | some (ty, []) => if Impl.hasMel ty then toString (Impl.mel ty) else "none"
+    | _ => "bad-op"
+  | "cel" :: rest =>
+    match parseTy rest with
+    | some (ty, []) => if Impl.isCel ty then "yes" else "no"
+    | _ => "bad-op"
   | "fixed" :: rest =>
     match parseTy rest with
     | some (ty, []) =>
